@@ -33,7 +33,11 @@ RULE = ('cases = (expression text, extra AST bindings, route); routes: eval = ta
         'vars(builtins) x 27 argument lists x 14 placements (bare, subscripted, as key=, in f-strings, in comprehensions, '
         'interpolated); random = attribute chains with/without dunders, 90 composers (comprehensions, lambdas, walrus, starred '
         'calls, nested f-strings, interpolation braces, layout) over safe/risky atoms to depth 3, string-built expression '
-        'texts, AST keys shadowing builtins, str.format field traversals; T = typed safe expressions with known value. '
+        'texts, AST keys shadowing builtins, str.format field traversals; T = typed safe expressions with known value (AST text also beyond '
+        'ASCII/Latin-1/BMP); nfkc = cases of every family with identifiers (dunder chains, builtin and method names, shadowed '
+        'keys) re-spelled in NFKC-equivalent code points (fullwidth, mathematical, modifier/sub/superscript letters, roman '
+        'numerals, ligatures, U+FF3F/FE33/FE4D.. low lines; all identifiers, one, all but one; never two adjacent ASCII '
+        'underscores in a re-spelled name), value compared with the ASCII spelling. '
         'non-trivial = the evaluator executed at least one code object for the expression under the monitors; distinct by '
         '(route, expression, bindings)')
 ASSUMPTIONS = [
@@ -75,6 +79,7 @@ SHARD_TIMEOUT = {'quick': 900, 'thorough': 5400}
 
 N_RANDOM = {'quick': 2400, 'thorough': 120000}
 N_T = {'quick': 1600, 'thorough': 40000}
+N_NFKC = {'quick': 1800, 'thorough': 45000}
 N_SHARDS = {'quick': 15, 'thorough': 47}
 TEXT_EVERY = 16
 ROUTES = ('eval', 'const', 'alert', 'input')
@@ -87,7 +92,7 @@ INPUT_NAME = 'src_'
 def plan(tier, seed):
     k = N_SHARDS[tier]
     shards = [{'mode': 'mix', 'seed': seed, 'shard': i, 'of': k, 'n_random': N_RANDOM[tier] // k,
-               'n_t': N_T[tier] // k} for i in range(k)]
+               'n_t': N_T[tier] // k, 'n_nfkc': N_NFKC[tier] // k} for i in range(k)]
     shards.append({'mode': 'child', 'seed': seed})
     return shards
 
@@ -214,7 +219,7 @@ def observe(fn):
 
 def expected_value(case, env):
     """plain Python over the allowed names"""
-    expr = case['expr']
+    expr = case.get('ascii', case['expr'])      # NFKC variants: the value of the plain spelling
     if case['kind'] == 'interp':
         expr = 'f' + repr(expr)
     ns = {k: getattr(builtins, k) for k in S.PURE}
@@ -326,9 +331,13 @@ def check_route(acc, case, route, textroute=False):
     if obs is None:
         acc.count('unbuildable:' + rname)
         return None
-    wit = {'case': {k: case[k] for k in ('expr', 'kind', 'bind', 'T') if k in case} | ({'ctx': 1} if case.get('ctx') else {}),
+    wit = {'case': {k: case[k] for k in ('expr', 'kind', 'bind', 'T', 'ascii', 'nfkc') if k in case}
+                   | ({'ctx': 1} if case.get('ctx') else {}),
            'route': route, 'textroute': textroute}
     where = f'[{rname}] {case["expr"]!r}' + (f' with AST keys {case["bind"]}' if case.get('bind') else '')
+    if case.get('nfkc'):
+        where += f' (NFKC spelling of {case["ascii"]!r})'
+        acc.count('nfkc_evaluations')
 
     # ---- what the monitors saw
     nroots = len(obs.roots)
@@ -362,6 +371,8 @@ def check_route(acc, case, route, textroute=False):
     touched = bool(obs.names or obs.calls or obs.attrs)
     if touched:
         acc.count('touching_evaluations')
+        if case.get('nfkc'):
+            acc.count('nfkc_touching_evaluations')
         acc.nontriv(route, case['expr'], case.get('bind'))
     else:
         acc.count('untouching_evaluations')   # rejected, literal, or constant-only
@@ -393,18 +404,26 @@ def check_route(acc, case, route, textroute=False):
             if got is None:
                 acc.count('alert_message_unobserved')
                 return obs
-        if exp[0] == 'ok':
+        if exp[0] == 'ok' and route == 'input' and case['kind'] == 'interp':
+            # a template that arrives in the input text: whether constant() interpolates text it has just
+            # interpolated is not part of the statement
+            acc.count('transparency_skipped_input_template')
+        elif exp[0] == 'ok':
             want = ('exact', exp[1]) if route == 'eval' else fixpoint(exp[1], user)
             if want is None:
                 acc.count('transparency_skipped_reevaluable')
             else:
                 acc.count('transparency_compared')
+                if case.get('nfkc'):
+                    acc.count('nfkc_transparency_compared')
                 ok = got[0] == 'ok' and same_value(got[1], want[1], user['p'])
                 if not ok and want[0] == 'text-or-fail' and got[0] == 'fail':
                     ok = True
                 if not ok:
                     if got[0] != 'ok':
                         sig = 'transparency:safe-expression-' + ('rejected' if not nroots else 'failed')
+                        if 'maximum recursion depth' in str(got[-1]):
+                            sig = 'transparency:safe-expression-failed:RecursionError'
                     elif route != 'eval' and isinstance(got[1], str) and got[1].strip() == case['expr'].strip():
                         sig = 'transparency:safe-expression-rejected'
                     else:
@@ -498,12 +517,35 @@ def run_mix(desc, acc):
         acc.count('sweep_cases')
         if i % per_name == 0:
             acc.count('builtins_swept')      # the shard that ran the first form of a name counts the name
+            # the same name spelled in NFKC-equivalent code points (ｅｖａｌ(a), 𝐨𝐩𝐞𝐧(a), ...)
+            rng = random.Random(h64('C17', 'nfkc-sweep', case['b']))
+            v = X.nfkc_variant(rng, case['b'] + '(a)', mode='all')
+            if v:
+                check_case(acc, {'expr': v[0], 'ascii': case['b'] + '(a)', 'nfkc': f'{v[1]}/{v[2]}', 'kind': 'sweep-call',
+                                 'bind': {}, 'T': False}, i // of)
+                acc.count('nfkc_variants')
+                acc.count('nfkc_builtins_swept')
     for i in range(desc['n_random']):
         rng = random.Random(h64('C17', desc['seed'], 'random', shard, i))
         case = X.random_case(rng)
         check_case(acc, case, i)
         if i == 0:
             acc.sample({'kind': case['kind'], 'expr': case['expr'], 'bind': case['bind'], 'routes': list(ROUTES)})
+    for i in range(desc.get('n_nfkc', 0)):
+        rng = random.Random(h64('C17', desc['seed'], 'nfkc', shard, i))
+        case = X.nfkc_case(rng)
+        if not case.get('nfkc'):
+            acc.count('nfkc_unspellable')
+            continue
+        check_case(acc, case, i)
+        acc.count('nfkc_variants')
+        acc.count('nfkc_mode:' + case['nfkc'].split('/')[0])
+        acc.count('nfkc_style:' + case['nfkc'].split('/')[1])
+        acc.count('nfkc_base:' + case['kind'])
+        if '__' in case['ascii'] and '__' not in case['expr']:
+            acc.count('nfkc_dunder_without_ascii_pair')
+        if i == 2:
+            acc.sample({'kind': case['kind'], 'nfkc': case['nfkc'], 'expr': case['expr'], 'ascii': case['ascii']})
     for i in range(desc['n_t']):
         rng = random.Random(h64('C17', desc['seed'], 'T', shard, i))
         case = X.t_case(rng)
